@@ -22,7 +22,8 @@ def ob(name, props, fn, tier='quick', pkg='llfree', features=(), kind='complete'
     # layer (and on every obligation in the thorough tier through assertion-reachability checks)
     if cover is None or cover is True:
         cover = any(harness.startswith(p) for p in COVER_ON)
-    OBS.append(dict(name=name, module=module, harness=harness, props=list(props), fn=list(fn), tier=tier, pkg=pkg,
+    key = name + ('@' + ','.join(features) if features else '')
+    OBS.append(dict(name=name, key=key, module=module, harness=harness, props=list(props), fn=list(fn), tier=tier, pkg=pkg,
                     features=tuple(features), kind=kind, bound=bound, assumes=list(assumes), timeout=timeout,
                     jobs=jobs, claim=claim, cover=cover))
 
@@ -271,3 +272,22 @@ for o, h in ((0, 1), (3, 2), (7, 0), (8, 3)):
     ob(f'lower::rg_lower_get_o{o}_h{h}', ['C01', 'C03', 'C05', 'C21'], ['lower::Lower::get'], tier='quick' if o == 3 else 'thorough', kind='config-bounded',
        bound=f'1 tree (4 huge frames), any bit states / entries, any bits already owned anywhere in the tree, order {o}, hint in huge frame {h}; environment on all rows and all four counter entries',
        assumes=RGL_ASSUMES + ['bitfield::Bitfield::set_first_zeros by its rely/guarantee contract (rg_set_first_zeros_o*)'], timeout=2400, cover=False)
+
+# ------------------------------------------------------------------------------------------------
+# Other compile-time geometries (thorough tier): huge frames per tree 1 / 2 / 8
+# ------------------------------------------------------------------------------------------------
+for th, feat in ((1, 'tree_huge_1'), (2, 'tree_huge_2'), (8, 'tree_huge_8')):
+    tree_order = 9 + {1: 0, 2: 1, 8: 3}[th]
+    for fn, pre, props in (('put', 'l1b_put', ['C02', 'C01']), ('get_at', 'l1b_get_at', ['C02', 'C01']), ('get', 'l1b_get', ['C12', 'C02', 'C01'])):
+        for o in range(tree_order + 1):
+            hs = [h for h in range(th) if o < 9 or h % (1 << (o - 9)) == 0]
+            if th == 8:
+                hs = [h for h in hs if h in (0, 3, 4)] or hs[:1]
+            for h in hs:
+                ob(f'lower::{pre}_o{o}_h{h}@{feat}'.replace('@' + feat, ''), props, ['lower::Lower::' + ('get' if fn != 'put' else 'put')], tier='thorough', features=(feat,), kind='config-bounded',
+                   bound=f'geometry {feat}: 1 tree of {th} huge frame(s), all states under wf_lower, order {o}, huge frame {h}', assumes=LOWER_ASSUMES, timeout=1800, cover=False)
+    for b in range(1, th + 1):
+        FB = f'geometry {feat}: every frame count with {b} bitfield(s)'
+        ob(f'lower::c06_free_all_b{b}', ['C06', 'C02'], ['lower::Lower::free_all'], tier='thorough', features=(feat,), kind='config-bounded', bound=FB, cover=False)
+        ob(f'lower::c06_reserve_all_b{b}', ['C06', 'C02'], ['lower::Lower::reserve_all'], tier='thorough', features=(feat,), kind='config-bounded', bound=FB, cover=False)
+        ob(f'lower::c05_recover_b{b}', ['C05', 'C09'], ['lower::Lower::recover'], tier='thorough', features=(feat,), kind='config-bounded', bound=FB + ' (any persistent state)', cover=False)
